@@ -35,12 +35,14 @@ def universes():
              tfmt=['pickle', 'json', 'pickle']),
     ]
     # "twins": five independent tasks of one type told apart only by the value / the type of one parameter
+    # a chain of tasks whose type is defined in the program's main module (as in a user's script)
+    us.append(dict(mk(2, [[], [1]], [1, 1], [UNL], [True], [], [], 'serial', 2), tfmt=['pickle'], mainmod=True))
     us = [dict(u, twins=False) for u in us]
     us.append(dict(mk(5, [[], [], [], [], []], [1, 1, 1, 1, 1], [UNL], [True], [], [], 'serial', 2), tfmt=['pickle'], twins=True))
     return us
 
 
-TWINS_UI = 4      # 1-based index of the twins universe in universes()
+TWINS_UI = 5      # 1-based index of the twins universe in universes()
 
 TIERS = {
     'quick': dict(gen='CacheHistory_gen3.cfg', sims=[('CacheHistory_sim3.cfg', 700, 3), ('CacheHistory_sim2.cfg', 120, 2)],
@@ -124,6 +126,8 @@ def run(prop: str, tier: str) -> int:
                 if h['op'] == 'run':
                     x = rnd.random()
                     backend = 'spawn' if x < T['spawn_prob'] else ('fork' if x < T['spawn_prob'] + T['fork_prob'] else 'serial')
+                    if us[ui].get('mainmod') and x < 0.5:
+                        backend = 'spawn'      # what matters for a main-module type is crossing into a spawned interpreter
                     ops.append({'op': 'run', 'req': h['req'], 'bust': bool(h['bust']), 'backend': backend,
                                 'newproc': bool(i > 0 and rnd.random() < T['newproc_prob'])})
                 else:
